@@ -111,7 +111,7 @@ theorem drop_na_normal_form (truth : Term → Bool) :
 
 /-- `tolist` puts None exactly where `is_na` flags. -/
 theorem tolist_normal_form (truth : Term → Bool) :
-    Vector_tolist truth = Out.ret [] (Term.app "np.where(self.is_na(), None, self).tolist" []) := rfl
+    Vector_tolist truth = Out.ret [] (Term.app ".tolist" [Term.app "np.where" [Term.app ".is_na" [Term.sym "self"], Term.sym "None", Term.sym "self"]]) := rfl
 
 /-- `equal` as written: False unless the other is a Vector of the same length with the same kind of missing
     value; otherwise "same missing positions and equal values at the non-missing positions" — missing values
